@@ -334,6 +334,7 @@ pub fn eval_c18(item: &(State, Vec<DVec3>)) -> Eval {
     let mut gens = st.gens.clone();
     gens.extend(extra_pts.iter().copied());
     let mut max_r = 0usize;
+    let mut max_planes = 0usize;
     for i in 0..n {
         let seq = match guarded(|| meshless_voronoi::verif::nn_sequence(&st.gens, i, st.norm_width(), st.dimensionality(), st.periodic)) {
             Ok(s) => s,
@@ -388,6 +389,7 @@ pub fn eval_c18(item: &(State, Vec<DVec3>)) -> Eval {
             }) {
                 Ok((c2, cont)) => {
                     cc = c2;
+                    max_planes = max_planes.max(cc.cell.clipping_planes.len());
                     if !cont {
                         break;
                     }
@@ -399,6 +401,9 @@ pub fn eval_c18(item: &(State, Vec<DVec3>)) -> Eval {
     }
     e.sig = h.finish();
     e.nontrivial = max_r >= 2;
+    if max_planes > 256 + 6 {
+        e.count("states_with_a_cell_of_more_than_256_effective_clips", 1);
+    }
     if max_r >= 33 {
         e.count("states_with_a_removed_set_of_33+_vertices", 1);
     }
@@ -653,7 +658,7 @@ pub fn run_c18(run: &mut Run) {
     {
         let b = boxes[0];
         let mut items: Vec<(State, Vec<DVec3>)> = vec![];
-        for nshell in if thorough { vec![40usize, 80, 120, 200, 255, 256, 257, 300, 400] } else { vec![80usize, 120, 300] } {
+        for nshell in if thorough { vec![40usize, 80, 120, 200, 255, 256, 257, 300, 400] } else { vec![80usize, 120, 300, 400, 500] } {
             let c = b.anchor + 0.5 * b.width;
             let mut gens = vec![c];
             let golden = std::f64::consts::PI * (3. - 5f64.sqrt());
@@ -662,7 +667,9 @@ pub fn run_c18(run: &mut Run) {
                 let r = (1. - y * y).sqrt();
                 let th = golden * k as f64;
                 // radius jittered deterministically so that the points are in general position
-                let rad = 0.3 * (1. + 0.05 * ((k * 7919 % 101) as f64 / 101. - 0.5));
+                // (the jitter shrinks with the shell size so that every neighbour keeps its face: more than 255
+                // effective clips of one cell for N >= 300)
+                let rad = 0.3 * (1. + 0.05 * (40. / nshell as f64).min(1.) * ((k * 7919 % 101) as f64 / 101. - 0.5));
                 gens.push(c + v3(r * th.cos(), y, r * th.sin()) * rad * b.width);
             }
             let st = State { id: format!("3R|b0|shell{}|centre+shell", nshell), dim: 3, periodic: false, anchor: b.anchor, width: b.width, gens };
